@@ -730,7 +730,10 @@ class _Norm(ast.NodeTransformer):
             # N16: jump threading - a leaf of an if-chain binds v to a constant and the very next statement is a guard on v
             if isinstance(s, ast.If) and isinstance(nx, ast.If) and not nx.orelse and nx.body \
                     and isinstance(nx.body[-1], (ast.Return, ast.Raise)):
-                self._thread_guard(fn, s, nx)
+                if self._thread_guard(fn, s, nx):
+                    out.append(s)
+                    i += 2
+                    continue
             # N15: an if-chain that only selects a value for a temporary used once, in the very next statement
             if isinstance(s, ast.If) and nx is not None and isinstance(nx, (ast.Expr, ast.Assign, ast.Return, ast.Raise, ast.For)):
                 sunk = self._sink_selector(fn, s, nx)
@@ -777,10 +780,15 @@ class _Norm(ast.NodeTransformer):
                     and isinstance(s.value.func, ast.Name) and s.value.func.id == 'next' and len(s.value.args) == 2 and not s.value.keywords
                     and isinstance(s.value.args[0], ast.GeneratorExp) and len(s.value.args[0].generators) == 1
                     and isinstance(s.value.args[1], ast.Constant) and s.value.args[1].value is None
-                    and isinstance(nx, ast.If) and not nx.orelse and isinstance(nx.test, ast.Compare) and len(nx.test.ops) == 1
-                    and isinstance(nx.test.ops[0], ast.IsNot) and isinstance(nx.test.left, ast.Name) and nx.test.left.id == s.targets[0].id
-                    and isinstance(nx.test.comparators[0], ast.Constant) and nx.test.comparators[0].value is None):
+                    and isinstance(nx, ast.If) and isinstance(nx.test, ast.Compare) and len(nx.test.ops) == 1
+                    and isinstance(nx.test.ops[0], (ast.IsNot, ast.Is)) and isinstance(nx.test.left, ast.Name) and nx.test.left.id == s.targets[0].id
+                    and isinstance(nx.test.comparators[0], ast.Constant) and nx.test.comparators[0].value is None
+                    and not any(isinstance(n, ast.Name) and n.id == s.targets[0].id
+                                for b in (nx.orelse if isinstance(nx.test.ops[0], ast.IsNot) else nx.body) for n in ast.walk(b))):
                 v = s.targets[0].id
+                found_body, missing_body = (nx.body, nx.orelse) if isinstance(nx.test.ops[0], ast.IsNot) else (nx.orelse, nx.body)
+                if not found_body:
+                    found_body = [ast.copy_location(ast.Pass(), nx)]
                 ge = s.value.args[0]
                 g = ge.generators[0]
                 tv = {n.id for n in ast.walk(g.target) if isinstance(n, ast.Name)}
@@ -790,10 +798,10 @@ class _Norm(ast.NodeTransformer):
                 in_if = {id(n) for n in ast.walk(nx)}
                 other_uses = [n for n in ast.walk(fn) if isinstance(n, ast.Name) and n.id == v and id(n) not in in_if and id(n) not in inside
                               and n is not s.targets[0]]
-                jumps = any(isinstance(n, (ast.Break, ast.Continue)) for b in nx.body for n in ast.walk(b))
+                jumps = any(isinstance(n, (ast.Break, ast.Continue)) for b in nx.body + nx.orelse for n in ast.walk(b))
                 if not clash and not other_uses and not jumps and not g.is_async:
                     import copy
-                    body = list(nx.body)
+                    body = list(found_body)
                     if isinstance(ge.elt, ast.Name):
                         # the found element simply *is* the loop variable
                         for b in body:
@@ -810,7 +818,7 @@ class _Norm(ast.NodeTransformer):
                     for n in ast.walk(g.target):
                         if isinstance(n, ast.Name):
                             n.ctx = ast.Store()
-                    stmts[i:i + 2] = [ast.copy_location(ast.For(g.target, g.iter, inner, [], lineno=s.lineno), s)]
+                    stmts[i:i + 2] = [ast.copy_location(ast.For(g.target, g.iter, inner, list(missing_body), lineno=s.lineno), s)]
                     i += 1
                     continue
             for fld in ('body', 'orelse', 'finalbody'):
@@ -1006,22 +1014,46 @@ class _Norm(ast.NodeTransformer):
             return
         mentions = any(isinstance(n, ast.Name) and n.id == v for b in nx.body for n in ast.walk(b))
 
+        class _NonNull:
+            pass
+        nonnull = _NonNull()
+
+        def value_of(e):
+            """(decidable, representative value) of a leaf's right-hand side: constants, and - for tests against None - expressions
+            that are never None (string formatting, displays)"""
+            if isinstance(e, ast.Constant):
+                return True, e.value
+            never_none = isinstance(e, (ast.JoinedStr, ast.Tuple, ast.List, ast.Dict, ast.Set, ast.ListComp, ast.DictComp, ast.SetComp)) or (
+                isinstance(e, ast.Call) and isinstance(e.func, ast.Attribute) and e.func.attr in ('format', 'join')
+                and isinstance(e.func.value, ast.Constant) and isinstance(e.func.value.value, str))
+            if never_none and isinstance(t, ast.Compare) and t.comparators[0].value is None and isinstance(t.ops[0], (ast.Is, ast.IsNot)):
+                return True, nonnull
+            return False, None
+        total = [True]
+
         def leaves(n: ast.If):
             for arm in (n.body, n.orelse):
                 if not arm:
+                    total[0] = False
                     continue
                 last = arm[-1]
                 if isinstance(last, ast.If):
                     leaves(last)
+                elif isinstance(last, (ast.Return, ast.Raise)):
+                    pass
                 elif (isinstance(last, ast.Assign) and len(last.targets) == 1 and isinstance(last.targets[0], ast.Name)
-                      and last.targets[0].id == v and isinstance(last.value, ast.Constant)):
-                    if decide(last.value.value):
+                      and last.targets[0].id == v and value_of(last.value)[0]):
+                    if decide(value_of(last.value)[1]):
                         new = [copy.deepcopy(b) for b in nx.body]
                         if mentions:
                             arm.extend(new)
                         else:
                             arm[-1:] = new
+                else:
+                    total[0] = False
         leaves(s)
+        # every path through the selection was decided: the guard itself is dead
+        return total[0]
 
     @staticmethod
     def _sink_selector(fn, s: ast.If, nx: ast.stmt):
@@ -1487,6 +1519,10 @@ def propagate_module_constants(tree: ast.Module, ext=None) -> ast.Module:
             new_body.append(sub.visit(st))
         elif isinstance(st, (ast.For, ast.Expr, ast.If)):
             new_body.append(sub.visit(st))      # module-level registration code reads the constants too
+        elif isinstance(st, (ast.Assign, ast.AnnAssign)) and st.value is not None and not (
+                isinstance(st, ast.Assign) and len(st.targets) == 1 and isinstance(st.targets[0], ast.Name) and st.targets[0].id in binds):
+            st.value = sub.visit(st.value)      # tables built from the constants (scalar_type_to_tag = {str: _STR_TAG, ..})
+            new_body.append(st)
         else:
             new_body.append(st)
     tree.body = new_body
